@@ -96,6 +96,7 @@ func checkC12(w *World, r *Report) {
 	r.NotDecided = []string{"time / allocation bounds as numbers", "miekg/dns message parsing", "unrecoverable runtime errors (stack overflow, out of memory)"}
 	r.Trusted = []string{"miekg/dns v1.1.34 does not recover panics in handlers and accepts only messages with exactly one question (DefaultMsgAcceptFunc)", "recover() in a deferred closure stops a panic raised later in the same goroutine"}
 	r.Rule("R12.1", "panic containment at both untrusted entry points", 2)
+	r.Rule("R12.9", "an error answer always decodes to an error (the client's callers type-assert the answer when Query reports none)", 1)
 	r.Rule("R12.8", "a query cannot disturb an established session unless it passed the owner check (handlers touch session state only on the err == nil edge of validateAndGetUser)", 4)
 	r.Rule("R12.7", "a recovered panic is reported as an error by the entry point that returns one", 1)
 	r.Rule("R12.2", "command table has no callable nil", 2)
@@ -256,6 +257,7 @@ func checkC12(w *World, r *Report) {
 	// ---------------------------------------------------------------- R12.2
 	c12CommandTable(w, r)
 	ruleHandlersGuarded(w, r, "R12.8")
+	c12ErrorAnswerIsAnError(w, r)
 
 	// ---------------------------------------------------------------- R12.3
 	c12Sizes(w, r)
@@ -672,4 +674,77 @@ func c12Sizes(w *World, r *Report) {
 		}
 		r.Check(bad == "", "R12.3", key, w.Pos(fld.Pos()), fmt.Sprintf("%d use(s), each behind constant bounds", nuse), bad, "uses", nuse)
 	}
+}
+
+// c12ErrorAnswerIsAnError: R12.9 — QueryWithData turns an ErrorResponse into (resp, resp.Err). Its callers
+// type-assert the answer to the type they asked for whenever the error is nil, outside any recover. So
+// ErrorResponse.Decode must never succeed with Err == nil: on every path on which it can return a nil error
+// a non-nil value has been stored into Err. pkg/errors.WithStack/Wrap(f) return nil for a nil argument, so
+// `return errors.WithStack(err)` is a possible success return unless err is known non-nil on the path.
+func c12ErrorAnswerIsAnError(w *World, r *Report) {
+	et := w.Named("internal/streams/dns/commands", "ErrorResponse")
+	key := "method:(*commands.ErrorResponse).Decode|err-set"
+	fn := w.SSAFunc(methodOf(et, "Decode"))
+	errF := fieldOf(et, "Err")
+	if fn == nil || errF == nil {
+		r.Undecided("R12.9", key, "-", "anchor unresolved: commands.ErrorResponse.Decode / Err")
+		return
+	}
+	isErrStore := func(in ssa.Instruction) bool {
+		st, ok := in.(*ssa.Store)
+		if !ok {
+			return false
+		}
+		fa := asFieldAddr(st.Addr)
+		return fa != nil && fieldVarOf(fa) == errF && !isConstNil(st.Val)
+	}
+	var maybeNil func(st *pathState, v ssa.Value, d int) bool
+	maybeNil = func(st *pathState, v ssa.Value, d int) bool {
+		v = st.Resolve(v)
+		if isConstNil(v) {
+			return true
+		}
+		if isNil, known := st.NilKnown(v); known {
+			return isNil
+		}
+		if c, ok := v.(*ssa.Call); ok && d < 4 {
+			f := sCallee(c)
+			if f != nil && f.Pkg() != nil && f.Pkg().Path() == "github.com/pkg/errors" {
+				switch f.Name() {
+				case "WithStack", "Wrap", "Wrapf", "WithMessage", "WithMessagef":
+					return maybeNil(st, c.Call.Args[0], d+1)
+				case "New", "Errorf":
+					return false
+				}
+			}
+			if f != nil && f.Pkg() != nil && (f.Pkg().Path() == "errors" || f.Pkg().Path() == "fmt") {
+				return false
+			}
+		}
+		if _, isMk := v.(*ssa.MakeInterface); isMk {
+			return false
+		}
+		// an error value nothing is known about (the result of a call that was only compared with a sentinel)
+		return true
+	}
+	bad := ""
+	nsucc := 0
+	okp := enumPaths(fn, nil, isErrStore, nil, func(e pathExit) {
+		ret, isRet := e.Last.(*ssa.Return)
+		if !isRet || len(ret.Results) == 0 || bad != "" {
+			return
+		}
+		if !maybeNil(e.State, ret.Results[len(ret.Results)-1], 0) {
+			return // a definite failure
+		}
+		nsucc++
+		if len(e.State.Events) == 0 {
+			bad = fmt.Sprintf("%s: Decode can return a nil error here without having stored an error into Err (errors.WithStack(nil) is nil): the answer then reaches the client's callers as 'no error', they type-assert it to the answer type they asked for and the client panics outside any recover — one crafted error answer (a NUL byte in its text) kills the client", w.Pos(ret.Pos()))
+		}
+	})
+	if !okp {
+		r.Undecided("R12.9", key, w.Pos(fn.Pos()), "path budget exceeded")
+		return
+	}
+	r.Check(bad == "" && nsucc > 0, "R12.9", key, w.Pos(fn.Pos()), fmt.Sprintf("%d possibly-successful return path(s), each after a non-nil store into Err", nsucc), bad)
 }
